@@ -137,7 +137,7 @@ theorem seqValue_complete {ext : Ext} {xs : SVals} (hraw : noRaws xs = true)
     (hg : Good b dt n md) (hr : vsizes ext xs + 1 ≤ room b) (hi : seqSpec ext (k != .seq) dt md xs = .ok lv) :
     ∃ b', seqLikeWith (fun large el offs => pushElems ext large el offs xs) (fun el c => pushCountElems ext el c xs)
       (fun s => pushTupleElems ext s xs) (u8All xs) b k = .ok b' ∧ room b ≤ room b' + (vsizes ext xs + 1) :=
-  seqLike_complete hpe hpc (pushTupleElems_appends ext xs (noRaws_rawOK xs hraw))
+  seqLike_complete hpe hpc (pushTupleElems_appends ext xs)
     (fun s1 s2 hp => pushTupleElems_takeRest ext xs s1 s2 hp) hpt.comp b k dt n md lv hg hr hi
 
 theorem recordValue_complete {ext : Ext} {fields : SFields} (hraw : noRawf fields = true) (hpf : FieldsLoop ext fields)
@@ -149,7 +149,7 @@ theorem recordValue_complete {ext : Ext} {fields : SFields} (hraw : noRawf field
   have ht := hg.tot
   simp only [total, Bool.and_eq_true] at ht
   simp only [room] at hr
-  obtain ⟨b', hb', hroom⟩ := record_complete hg (pushFields_appends ext fields (noRawf_rawOK fields hraw))
+  obtain ⟨b', hb', hroom⟩ := record_complete hg (pushFields_appends ext fields)
     (fun s1 s2 hp => pushFields_takeRest ext fields s1 s2 hp) (hpf.comp sfs ht.1) (by omega) hi
   exact ⟨b', by simpa only [recordWith] using hb', by simp only [room]; omega⟩
 
